@@ -346,9 +346,9 @@ template <class Block> struct HybridP {     // F is block-level; the backend con
 };
 
 // spmv / residual with matrix policy P, vector containers VX (x), VY (y, f, r)
-template <class P, class VX, class VY, class Coef>
+template <class P, class VX, class VY, class Coef, class VF = VY>
 void mat_ops(vr::rng &g, const char *be, const char *ty, const char *mixed, int reps, bool xbig = false) {
-    typedef typename elem_of<VX>::type EX; typedef typename elem_of<VY>::type EY;
+    typedef typename elem_of<VX>::type EX; typedef typename elem_of<VY>::type EY; typedef typename elem_of<VF>::type EF;
     Kind K = P::kind(); const int W = K.W();
     for (int rep = 0; rep < reps; ++rep) {
         int n = g.range(1, vr::thorough() ? 14 : 9), m = g.coin(0.3) ? n : g.range(1, vr::thorough() ? 14 : 9);
@@ -377,7 +377,8 @@ void mat_ops(vr::rng &g, const char *be, const char *ty, const char *mixed, int 
                 FV x = gen_fv(g, m, W), f = gen_fv(g, n, W), r = gen_fv(g, n, W); poison(g, r);
                 // xbig: x = +-(2^24 + 1..7), exact in the (double) vectors but not in a float accumulator
                 if (xbig) for (auto &v : x.v) v = (g.coin() ? 1 : -1) * (16777216LL + g.range(1, 7));
-                H<VX> X(lx); H<VY> Fv(ly), Rv(ly); fill(X.get(), lx, x); fill(Fv.get(), ly, f); fill(Rv.get(), ly, r);
+                size_t lf = (size_t)n * W / per_elem<EF>::value;
+                H<VX> X(lx); H<VF> Fv(lf); H<VY> Rv(ly); fill(X.get(), lx, x); fill(Fv.get(), lf, f); fill(Rv.get(), ly, r);
                 backend::residual(Fv.get(), *A, X.get(), Rv.get());
                 vr::obj o = head("residual", be, ty, K, mixed);
                 o.raw("A", fm_json(F)).raw("x", fv_json(x)).raw("f", fv_json(f)).raw("y", fv_json(r)).raw("out", fv_json(read(Rv.get(), ly, W))); put(o);
@@ -386,19 +387,20 @@ void mat_ops(vr::rng &g, const char *be, const char *ty, const char *mixed, int 
     }
 }
 
-// vmul with a block-valued x and scalar y, z (backend/builtin.hpp "mixed scalar/nonscalar")
-template <class MVc, class VS, class Coef>
-void vmul_mixed(vr::rng &g, const char *be, const char *ty, int reps) {
+// vmul with a block-valued x and y, z each either a scalar vector or a block vector (backend/builtin.hpp "mixed scalar/nonscalar")
+template <class MVc, class VY, class Coef, class VZ = VY>
+void vmul_mixed(vr::rng &g, const char *be, const char *ty, int reps, const char *mixed = "yz") {
     typedef typename elem_of<MVc>::type ME; Kind K = kind_of<ME>(); const int W = K.W(), MW = K.MW();
+    typedef typename elem_of<VY>::type EY; typedef typename elem_of<VZ>::type EZ;
     for (int rep = 0; rep < reps; ++rep) try {
         int n = g.range(1, 12); FV x = gen_fv(g, n, MW), y = gen_fv(g, n, W), z = gen_fv(g, n, W); CF a = pick<Coef>(g), b = pick<Coef>(g, 0.5);
         if (b.zero()) poison(g, z);
-        size_t ls = (size_t)n * K.b;
-        H<MVc> X(n); H<VS> Y(ls), Z(ls); fill(X.get(), n, x); fill(Y.get(), ls, y); fill(Z.get(), ls, z);
+        size_t ly = (size_t)n * W / per_elem<EY>::value, lz = (size_t)n * W / per_elem<EZ>::value;
+        H<MVc> X(n); H<VY> Y(ly); H<VZ> Z(lz); fill(X.get(), n, x); fill(Y.get(), ly, y); fill(Z.get(), lz, z);
         backend::vmul(mkc<Coef>::get(a), X.get(), Y.get(), mkc<Coef>::get(b), Z.get());
-        vr::obj o = head("vmul", be, ty, K, "yz"); o.raw("a", cf_json(a, K.cx)).raw("bb", cf_json(b, K.cx));
-        o.raw("x", fv_json(x)).raw("y", fv_json(y)).raw("z", fv_json(z)).raw("out", fv_json(read(Z.get(), ls, W))); put(o);
-    } catch (const std::exception &e) { vr::obj o = head("vmul", be, ty, K, "yz"); o.str("exc", e.what()); vr::emit(o.done()); }
+        vr::obj o = head("vmul", be, ty, K, mixed); o.raw("a", cf_json(a, K.cx)).raw("bb", cf_json(b, K.cx));
+        o.raw("x", fv_json(x)).raw("y", fv_json(y)).raw("z", fv_json(z)).raw("out", fv_json(read(Z.get(), lz, W))); put(o);
+    } catch (const std::exception &e) { vr::obj o = head("vmul", be, ty, K, mixed); o.str("exc", e.what()); vr::emit(o.done()); }
 }
 
 // reinterpret_as_rhs called directly (as make_block_solver / as_block do): the scalar vectors viewed as block
@@ -407,7 +409,7 @@ template <class Block, class VS, class Coef>
 void reint_ops(vr::rng &g, const char *ty, int reps) {
     Kind K = kind_of<Block>(); const int W = K.W();
     for (int rep = 0; rep < reps; ++rep) try {
-        int n = g.range(1, 14); size_t ls = (size_t)n * K.b;
+        int n = g.range(1, 14); size_t ls = (size_t)n * W / per_elem<typename elem_of<VS>::type>::value;
         FV x = gen_fv(g, n, W), y = gen_fv(g, n, W); CF a = pick<Coef>(g), b = pick<Coef>(g, 0.5);
         if (b.zero()) poison(g, y);
         H<VS> Xs(ls), Ys(ls); fill(Xs.get(), ls, x); fill(Ys.get(), ls, y);
@@ -430,6 +432,48 @@ void reint_ops(vr::rng &g, const char *ty, int reps) {
         backend::clear(Y);
         { vr::obj o = head("clear", "builtin", ty, K, "reinterpret"); o.raw("y", fv_json(z)).raw("out", fv_json(read(Ys.get(), ls, W))); put(o); }
     } catch (const std::exception &e) { vr::obj o = head("axpby", "builtin", ty, K, "reinterpret"); o.str("exc", e.what()); vr::emit(o.done()); }
+}
+
+template <class MV> std::vector<long long> flat_of(const MV &m, double tol);
+template <class MV> void value_ops_square(vr::rng &, vr::obj &, double, std::false_type) {}
+template <class MV> void value_ops_square(vr::rng &g, vr::obj &o, double tol, std::true_type) {
+    typedef VT<MV> T; typedef typename T::S S; const int sw = ST<S>::SW, N = T::R;
+    // unimodular integer block: identity after a few row operations row_i += c * row_j, c in {1, -1} (and +-i for complex)
+    std::vector<long long> u((size_t)N * N * 2, 0); for (int i = 0; i < N; ++i) u[(i * N + i) * 2] = 1;
+    for (int k = 0; k < N + 1; ++k) { int i = g.below(N), j = g.below(N); if (i == j) continue; long long cr = g.coin() ? 1 : -1, ci = 0; if (sw == 2 && g.coin(0.4)) { ci = cr; cr = 0; }
+        for (int q = 0; q < N; ++q) { long long ar = u[(j * N + q) * 2], ai = u[(j * N + q) * 2 + 1]; u[(i * N + q) * 2] += cr * ar - ci * ai; u[(i * N + q) * 2 + 1] += cr * ai + ci * ar; } }
+    std::vector<long long> uf; MV U;
+    for (int r = 0; r < N; ++r) for (int q = 0; q < N; ++q) { long long c[2] = {u[(r * N + q) * 2], u[(r * N + q) * 2 + 1]}; T::set(U, r, q, ST<S>::make(c)); for (int k = 0; k < sw; ++k) uf.push_back(c[k]); }
+    MV inv = math::inverse(U), id = math::identity<MV>();
+    o.ints("id", flat_of(id, tol)).ints("u", uf).ints("inv", flat_of(inv, tol));
+}
+
+// ---- value-type operations on block values: adjoint, zero / is_zero, norm, identity, inverse (of a unimodular integer block)
+template <class MV> struct TT;
+template <class T, int N, int M> struct TT< static_matrix<T, N, M> > { typedef static_matrix<T, M, N> type; };
+template <class T, int N, int M> struct TT< Eigen::Matrix<T, N, M> > { typedef Eigen::Matrix<T, M, N> type; };
+template <class MV> std::vector<long long> flat_of(const MV &m, double tol) {
+    typedef VT<MV> T; typedef typename T::S S; const int sw = ST<S>::SW; std::vector<long long> v;
+    for (int r = 0; r < T::R; ++r) for (int q = 0; q < T::C; ++q) { long double c[2]; ST<S>::get(T::get(m, r, q), c);
+        for (int k = 0; k < sw; ++k) { if (!std::isfinite((double)c[k]) || std::fabs((double)(c[k] - std::rint(c[k]))) > tol) g_exact = false; v.push_back((long long)std::rint(c[k])); } }
+    return v;
+}
+template <class MV> void value_ops(vr::rng &g, const char *ty, int reps) {
+    typedef VT<MV> T; typedef typename T::S S; typedef typename ST<S>::real R; const int sw = ST<S>::SW, N = T::R, M = T::C;
+    const double tol = std::numeric_limits<R>::digits < 30 ? 1e-3 : 1e-8;
+    Kind K; K.b = N; K.cx = sw == 2;
+    for (int rep = 0; rep < reps; ++rep) try {
+        std::vector<long long> mi((size_t)N * M * sw); for (auto &v : mi) v = g.range(-3, 3);
+        if (rep % 7 == 6) for (auto &v : mi) v = 0;
+        MV m; for (int r = 0; r < N; ++r) for (int q = 0; q < M; ++q) T::set(m, r, q, ST<S>::make(&mi[(r * M + q) * sw]));
+        typename TT<MV>::type adj = math::adjoint(m);
+        MV z = math::zero<MV>();
+        double nrm = (double)math::norm(m); double n2 = nrm * nrm; if (std::fabs(n2 - std::rint(n2)) > tol * (1 + n2)) g_exact = false;
+        vr::obj o = head("valueops", "value_type", ty, K); o.i("c", M).ints("m", mi).ints("adj", flat_of(adj, tol)).ints("zero", flat_of(z, tol));
+        o.b("zero_is_zero", math::is_zero(z)).b("m_is_zero", math::is_zero(m)).i("norm2", (long long)std::rint(n2));
+        value_ops_square<MV>(g, o, tol, std::integral_constant<bool, T::R == T::C>());
+        put(o);
+    } catch (const std::exception &e) { vr::obj o = head("valueops", "value_type", ty, K); o.str("exc", e.what()); vr::emit(o.done()); }
 }
 
 // copy between precisions (mixed-precision solvers copy float <-> double vectors)
@@ -497,6 +541,39 @@ int main(int argc, char **argv) {
     vmul_mixed< numa_vector< blk<double,2>::M >, numa_vector<double>, double >(g, "builtin", "static_matrix<double,2,2>", R);
     vmul_mixed< std::vector< blk<double,3>::M >, std::vector<double>, double >(g, "builtin", "static_matrix<double,3,3>", R);
     vmul_mixed< std::vector< eblk<double,2>::M >, std::vector<double>, double >(g, "builtin", "Eigen::Matrix<double,2,2>", R);
+    // value-type operations of block values
+    value_ops< static_matrix<double,2,2> >(g, "static_matrix<double,2,2>", 2 * R);
+    value_ops< static_matrix<double,3,3> >(g, "static_matrix<double,3,3>", R);
+    value_ops< static_matrix<float,4,4> >(g, "static_matrix<float,4,4>", R);
+    value_ops< static_matrix<double,2,3> >(g, "static_matrix<double,2,3>", R);
+    value_ops< static_matrix<double,3,1> >(g, "static_matrix<double,3,1>", R);
+    value_ops< static_matrix<cd,2,2> >(g, "static_matrix<complex<double>,2,2>", R);
+    value_ops< Eigen::Matrix<double,2,2> >(g, "Eigen::Matrix<double,2,2>", 2 * R);
+    value_ops< Eigen::Matrix<double,3,3> >(g, "Eigen::Matrix<double,3,3>", R);
+    value_ops< Eigen::Matrix<float,4,4> >(g, "Eigen::Matrix<float,4,4>", R);
+    value_ops< Eigen::Matrix<double,3,1> >(g, "Eigen::Matrix<double,3,1>", R);
+    value_ops< Eigen::Matrix<cd,2,2> >(g, "Eigen::Matrix<complex<double>,2,2>", R);
+    // every combination of {scalar, block} per vector operand, b = 2, 3, 4
+    vmul_mixed< numa_vector< blk<double,2>::M >, std::vector<double>, double, std::vector< blk<double,2>::V > >(g, "builtin", "static_matrix<double,2,2>", R, "y");
+    vmul_mixed< numa_vector< blk<double,2>::M >, std::vector< blk<double,2>::V >, double, numa_vector<double> >(g, "builtin", "static_matrix<double,2,2>", R, "z");
+    vmul_mixed< std::vector< blk<double,3>::M >, numa_vector<double>, double, std::vector< blk<double,3>::V > >(g, "builtin", "static_matrix<double,3,3>", R, "y");
+    vmul_mixed< std::vector< blk<double,3>::M >, std::vector< blk<double,3>::V >, double, std::vector<double> >(g, "builtin", "static_matrix<double,3,3>", R, "z");
+    vmul_mixed< std::vector< blk<float,4>::M >, std::vector<float>, float, numa_vector< blk<float,4>::V > >(g, "builtin", "static_matrix<float,4,4>", R, "y");
+    vmul_mixed< std::vector< blk<float,4>::M >, std::vector< blk<float,4>::V >, float, iterator_range<float*> >(g, "builtin", "static_matrix<float,4,4>", R, "z");
+    vmul_mixed< std::vector< blk<float,4>::M >, std::vector<float>, float >(g, "builtin", "static_matrix<float,4,4>", R);
+    vmul_mixed< std::vector< eblk<double,2>::M >, std::vector<double>, double, std::vector< eblk<double,2>::V > >(g, "builtin", "Eigen::Matrix<double,2,2>", R, "y");
+    mat_ops< CrsP< blk<double,2>::M >, std::vector<double>, numa_vector< blk<double,2>::V >, double >(g, "builtin", "static_matrix<double,2,2>", "x", R);
+    mat_ops< CrsP< blk<double,2>::M >, numa_vector< blk<double,2>::V >, std::vector<double>, double >(g, "builtin", "static_matrix<double,2,2>", "y", R);
+    mat_ops< CrsP< blk<float,4>::M >, std::vector<float>, std::vector< blk<float,4>::V >, float >(g, "builtin", "static_matrix<float,4,4>", "x", R);
+    mat_ops< CrsP< blk<float,4>::M >, std::vector< blk<float,4>::V >, std::vector<float>, float >(g, "builtin", "static_matrix<float,4,4>", "y", R);
+    // residual: f and r of different kinds
+    mat_ops< CrsP< blk<double,2>::M >, std::vector< blk<double,2>::V >, std::vector< blk<double,2>::V >, double, std::vector<double> >(g, "builtin", "static_matrix<double,2,2>", "f", R);
+    mat_ops< CrsP< blk<double,3>::M >, std::vector<double>, std::vector<double>, double, std::vector< blk<double,3>::V > >(g, "builtin", "static_matrix<double,3,3>", "xr", R);
+    mat_ops< CrsP< blk<float,4>::M >, std::vector< blk<float,4>::V >, numa_vector<float>, float, std::vector< blk<float,4>::V > >(g, "builtin", "static_matrix<float,4,4>", "r", R);
+    // reinterpret_as_rhs of vectors that already are block vectors (identity view, same length)
+    reint_ops< blk<double,2>::M, std::vector< blk<double,2>::V >, double >(g, "static_matrix<double,2,2> (block vectors)", R);
+    reint_ops< blk<double,3>::M, numa_vector< blk<double,3>::V >, double >(g, "static_matrix<double,3,3> (block vectors)", R);
+    reint_ops< blk<float,4>::M, std::vector< blk<float,4>::V >, float >(g, "static_matrix<float,4,4> (block vectors)", R);
     reint_ops< blk<double,2>::M, std::vector<double>, double >(g, "static_matrix<double,2,2>", R);
     reint_ops< blk<double,3>::M, numa_vector<double>, double >(g, "static_matrix<double,3,3>", R);
     reint_ops< blk<float,4>::M, std::vector<float>, float >(g, "static_matrix<float,4,4>", R);
